@@ -62,7 +62,13 @@ func conflictSet(i int64, seed int64) []file {
 	r := prng.For(seed, "C05", "conflict", i)
 	pick := func(xs ...string) string { return xs[r.Intn(len(xs))] }
 	var fs []file
-	switch i % 9 {
+	switch i % 10 {
+	case 9: // several multi-line errors that share their position and first line and differ only in the continuation lines
+		rev := pick("", "revision 2020-01-01;")
+		fs = append(fs, file{"m.yang", "module m { namespace \"urn:m\"; prefix m; " + rev + "\n  grouping g { leaf a { type string; } leaf b { type string; } }\n  grouping h1 { leaf a { type int8; } }\n  grouping h2 { leaf a { type boolean; } leaf b { type boolean; } }\n  grouping h3 { leaf b { type uint8; } }\n  container x { container c { uses " + pick("h1", "h2") + "; uses g; } }\n  container y { container c { uses " + pick("h2", "h3") + "; uses g; } }\n  container z { container c { uses " + pick("h1", "h3") + "; uses g; } }\n}\n"})
+		if r.Intn(2) == 0 {
+			fs = append(fs, file{"n.yang", "module n { namespace \"urn:n\"; prefix n; import m { prefix m; } container k { container c { leaf a { type string; } uses m:g; } } container l { container c { leaf b { type string; } uses m:g; } } }"})
+		}
 	case 6: // two revisions of a module that both include one submodule (nested include in half of the cases)
 		nested := pick("", "include t;")
 		top := ""
